@@ -15,6 +15,11 @@ def sub(rel, old, new, count=1):
 $2
 PY
   echo "=== $1" >> $LOG
+  # pre-record the mutated tree's fingerprint so that the check runs with QUICK budgets (harder test)
+  ( cd /verif; VERIF_REPO=$WT PYTHONPATH=$WT/src:/verif /venv/bin/python -c "
+import json,harness.c03 as m
+from harness.common import fingerprint
+json.dump(fingerprint(m.ANCHORS),open('/verif/fingerprints/C03.json','w'),indent=1,sort_keys=True)" 2>/dev/null )
   ( cd /verif; VERIF_REPO=$WT timeout 3000 ./check C03 2>/dev/null | grep -v KNOWN-FINDING | cut -c1-200 >> $LOG; echo "exit=${PIPESTATUS[0]}" >> $LOG )
   for f in /verif/replay/C03-0-0.json; do [ -f $f ] && python3 -c "
 import json;d=json.load(open('$f'));print('   first:',d['kind'],str(d['detail'].get('what'))[:110],json.dumps(d['detail'].get('input'))[:100])" >> $LOG; done
@@ -30,6 +35,7 @@ run "M7 repo_id allowed with an explicit EAPI (dropped branch)" 'sub("ebuild/ato
 run "H2 harmless (behaviour-preserving): sub-slot split uses rsplit" 'sub("ebuild/atom.py", "slots = slot.split(\"/\", 1)", "slots = slot.rsplit(\"/\", 1)")'
 run "H1 harmless: reorder character-set literals, rename a local" 'sub("ebuild/atom.py", "valid_slot_chars.update(\".+_-\")", "valid_slot_chars.update(\"-_+.\")"); sub("ebuild/cpv.py", "regexp(r\"^[a-zA-Z0-9+_]+$\")", "regexp(r\"^[A-Za-z0-9_+]+$\")"); sub("ebuild/atom.py", "            i2 = atom.find(\"::\", slot_start)\n            if i2 != -1:\n                repo_id = atom[i2 + 2 :]", "            i2 = atom.find(\"::\", slot_start)\n            if i2 >= 0:\n                repo_id = atom[i2 + 2 :]")'
 git -C /repo worktree remove --force $WT 2>/dev/null
+cp /verif/chk.scratch/C03.fingerprint.real /verif/fingerprints/C03.json
 echo "=== unchanged tree" >> $LOG
 ( cd /verif; ./check C03 2>/dev/null | grep -v KNOWN-FINDING >> $LOG; echo "exit=${PIPESTATUS[0]}" >> $LOG )
 echo DONE >> $LOG
